@@ -519,6 +519,7 @@ def run(ctx):
     guarded_suite(ctx, suite_geo_hist, GeoGrid, GeoNetwork, rng, 50 * S)
     guarded_suite(ctx, suite_dist_hist, Grid, GeoGrid, GeoNetwork, SpatialNetwork, rng, 50 * S)
     guarded_suite(ctx, suite_region, GeoGrid, rng, 40 * S)
+    guarded_suite(ctx, suite_region_model, GeoGrid, rng, 3 * S)   # round 5e
     guarded_suite(ctx, suite_net_history, Grid, GeoGrid, GeoNetwork, SpatialNetwork, rng, 20 * S)
 
 
@@ -2405,6 +2406,105 @@ def suite_region(ctx, GeoGrid, rng, ncases):
                          "region_indices does not mark exactly the nodes inside the polygon "
                          "(lon, lat pairs; negative polygon longitudes + 360 on a [0, 360] grid)",
                          dict(desc, expected=exp, observed=got))
+
+
+# --------------------------------------------------------------------------
+# N2. (round 5e) GeoGrid.region_indices: exact correspondence with the Lean model
+#     `regionIndices` (Model/GeoRegion.lean) and the box specification of
+#     `regionIndices_box_spec`, on fixed grids and boxes derived from their coordinates
+# --------------------------------------------------------------------------
+
+REGION_GRIDS = [
+    # (name, lat, lon) — dyadic coordinates: matplotlib's double arithmetic is exact on them
+    ("small-test", [0, 5, 10, 15, 20, 25], [2.5, 5, 7.5, 10, 12.5, 15]),
+    ("east-west", [-90, -45, 0, 0, 45, 90, 12.5], [-180, -90, 0, 180, 90, -0.25, 33.75]),
+    ("0-360", [-60, -30, 0, 0, 30, 60, 90], [0, 350, 10, 180, 359.75, 270, 90]),
+    ("coincident", [10, 10, 10, -10], [20, 20, -20, 20]),
+    ("single", [0], [0]),
+]
+
+
+def region_boxes(lat, lon):
+    """deterministic boxes (x0, y0, x1, y1) from the grid's own coordinates"""
+    xs, ys = sorted(set(lon)), sorted(set(lat))
+    q = Fr(1, 4)
+    out = [("hull", xs[0], ys[0], xs[-1], ys[-1]),                       # every edge hits nodes
+           ("hull+", xs[0] - q, ys[0] - q, xs[-1] + q, ys[-1] + q),      # strictly around all
+           ("hull-", xs[0] + q, ys[0] + q, xs[-1] - q, ys[-1] - q),
+           ("globe-ew", -180, -91, 180, 90), ("globe-360", 0, -91, 360, 90),
+           ("pole-edge", -180, -90, 360, 90),
+           ("neg-box", -170, ys[0] - q, -q, ys[-1]),                     # remapped on a [0, 360] grid
+           ("mixed-box", -20, ys[0] - q, xs[-1], ys[-1])]
+    mx, my = xs[len(xs) // 2], ys[len(ys) // 2]
+    out += [("node-corner", xs[0], ys[0], mx, my), ("node-corner2", mx, my, xs[-1], ys[-1]),
+            ("line-x", mx, ys[0] - q, mx, ys[-1]),                       # degenerate: x0 = x1
+            ("line-y", xs[0], my, xs[-1], my),                           # degenerate: y0 = y1
+            ("reversed", xs[-1], ys[-1], xs[0], ys[0])]                  # corners in the other order
+    return [(k, Fr(a), Fr(b), Fr(c), Fr(d)) for k, a, b, c, d in out]
+
+
+def suite_region_model(ctx, GeoGrid, rng, ncases):
+    reqs, impl = [], []
+    grids = list(REGION_GRIDS)
+    for c in range(ncases):                      # a few seed-dependent quarter-degree grids
+        n = rng.choice([2, 4, 7])
+        positive = rng.random() < 0.5
+        grids.append((f"random-{c}", [rng.randrange(-360, 361) / 4 for _ in range(n)],
+                      [rng.randrange(0 if positive else -720, 1441 if positive else 721) / 4
+                       for _ in range(n)]))
+    for gname, lat, lon in grids:
+        lat, lon = [Fr(v) for v in lat], [Fr(v) for v in lon]
+        n = len(lat)
+        g = GeoGrid(np.arange(2), np.array([float(v) for v in lat]), np.array([float(v) for v in lon]),
+                    silence_level=3)
+        remap = min(lon) >= 0
+        regions = [(k, [x0, y0, x1, y0, x1, y1, x0, y1], (x0, y0, x1, y1))
+                   for k, x0, y0, x1, y1 in region_boxes(lat, lon)]
+        xs, ys = sorted(set(lon)), sorted(set(lat))
+        regions += [
+            ("triangle-nodes", [lon[0], lat[0], lon[-1], lat[-1], xs[0] - 1, ys[-1] + 1], None),
+            ("triangle", [xs[0] - 1, ys[0] - 1, xs[-1] + 1, ys[0] - 1, xs[0] - 1, ys[-1] + 1], None),
+            ("bowtie", [xs[0], ys[0], xs[-1], ys[-1], xs[-1], ys[0], xs[0], ys[-1]], None),
+            ("two-vertices", [xs[0] - 1, ys[0] - 1, xs[-1] + 1, ys[-1] + 1], None),
+            ("odd-length", [xs[0], ys[0], xs[-1]], None)]
+        for kind, region, box in regions:
+            cur = {}
+            with ImplGuard(ctx, "region_indices", cur, [reqs, impl]):
+                region = [Fr(v) for v in region]
+                cur.update(lat=lat, lon=lon, region=region)
+                arg = np.array([float(v) for v in region])
+                try:
+                    got = [bool(v) for v in g.region_indices(arg)]
+                    ans = ",".join("1" if v else "0" for v in got) or "-"
+                except ValueError:
+                    got, ans = None, "raise:ValueError"
+                reqs.append(f"region {enc_rats(lat)} {enc_rats(lon)} {enc_rats(region)}")
+                impl.append(ans)
+                ctx.count(f"regionbox:{kind}:remapped={remap}")
+                ctx.case(("rgm", gname, kind, reqs[-1]), n >= 2,
+                         {"suite": "region_indices (model)", "request": reqs[-1], "answer": ans}
+                         if n <= 4 else None)
+                if box is None or got is None:
+                    continue
+                # the conclusion of `regionIndices_box_spec`, decided here in Fractions
+                X0, y0, X1, y1 = box
+                if remap:
+                    X0, X1 = (X0 + 360 if X0 < 0 else X0), (X1 + 360 if X1 < 0 else X1)
+                if X0 <= X1 and y0 <= y1:
+                    exp = [X0 <= lon[i] <= X1 and y0 < lat[i] <= y1 for i in range(n)]
+                    ctx.count("regionbox:nodes-on-boundary",
+                              sum(lon[i] in (X0, X1) or lat[i] in (y0, y1) for i in range(n)))
+                    if got != exp:
+                        ctx.fail({"kind": "region", "class": "GeoGrid", "method": "region_indices",
+                                  "clause": "box"},
+                                 "region_indices of a lat/lon box does not select exactly the nodes with "
+                                 "X0 <= lon <= X1 and y0 < lat <= y1 (negative box longitudes + 360 on a "
+                                 "[0, 360] grid)",
+                                 {"lat": [float(v) for v in lat], "lon": [float(v) for v in lon],
+                                  "region": [float(v) for v in region], "expected": exp, "observed": got})
+    ctx.correspond("Lean regionIndices (Rat) == GeoGrid.region_indices (boxes from the grid's own "
+                   "coordinates, boundary-hitting, remapped, degenerate; triangles, bow tie, "
+                   "ValueError)", reqs, impl)
 
 
 # --------------------------------------------------------------------------
